@@ -333,8 +333,8 @@ const InstInfo _inst_info_table[] = {
   INST(Ret              , BaseBranchReg      , (0b11010110010111110000000000000000)                                                  , kRWI_R    , 0                         , 2  ), // #275
   INST(Rev              , BaseRev            , (_)                                                                                   , kRWI_W    , 0                         , 0  ), // #276
   INST(Rev16            , BaseRR             , (0b01011010110000000000010000000000, kWX, kZR, 0, kWX, kZR, 5, true)                  , kRWI_W    , 0                         , 15 ), // #277
-  INST(Rev32            , BaseRR             , (0b11011010110000000000100000000000, kWX, kZR, 0, kWX, kZR, 5, true)                  , kRWI_W    , 0                         , 16 ), // #278
-  INST(Rev64            , BaseRR             , (0b11011010110000000000110000000000, kWX, kZR, 0, kWX, kZR, 5, true)                  , kRWI_W    , 0                         , 17 ), // #279
+  INST(Rev32            , BaseRR             , (0b11011010110000000000100000000000, kX , kZR, 0, kX , kZR, 5, true)                  , kRWI_W    , 0                         , 16 ), // #278
+  INST(Rev64            , BaseRR             , (0b11011010110000000000110000000000, kX , kZR, 0, kX , kZR, 5, true)                  , kRWI_W    , 0                         , 17 ), // #279
   INST(Ror              , BaseShift          , (0b0001101011000000001011, 0b0001001110000000000000, 1)                               , kRWI_W    , 0                         , 6  ), // #280
   INST(Rorv             , BaseShift          , (0b0001101011000000001011, 0b0000000000000000000000, 1)                               , kRWI_W    , 0                         , 7  ), // #281
   INST(Sbc              , BaseRRR            , (0b0101101000000000000000, kWX, kZR, kWX, kZR, kWX, kZR, true)                        , kRWI_W    , 0                         , 14 ), // #282
@@ -1323,8 +1323,8 @@ const BaseRR baseRR[18] = {
   { 0b11011010110000010000110000000000, kX, kZR, 0, kX, kSP, 5, true }, // pacdb
   { 0b01011010110000000000000000000000, kWX, kZR, 0, kWX, kZR, 5, true }, // rbit
   { 0b01011010110000000000010000000000, kWX, kZR, 0, kWX, kZR, 5, true }, // rev16
-  { 0b11011010110000000000100000000000, kWX, kZR, 0, kWX, kZR, 5, true }, // rev32
-  { 0b11011010110000000000110000000000, kWX, kZR, 0, kWX, kZR, 5, true }  // rev64
+  { 0b11011010110000000000100000000000, kX , kZR, 0, kX , kZR, 5, true }, // rev32
+  { 0b11011010110000000000110000000000, kX , kZR, 0, kX , kZR, 5, true }  // rev64
 };
 
 const BaseRRII baseRRII[2] = {
